@@ -21,7 +21,9 @@
 //   rot.same_second_restart_datetime  (F13, C14)  DateAndTime naming + append-mode restart in the same second as an
 //                                                  already rotated file's open time clobbers that file
 //   rot.drift_after_late_trigger      (F8,  C15)  next rotation point = timestamp of the triggering statement +
-//                                                  interval (two-tier oracle: tier A civil schedule, tier B drift)
+//                                                  interval (fixed in quill; tier A = the configured civil schedule is
+//                                                  asserted, tier B = any schedule on the configured grid decides only
+//                                                  on days on which the clocks change, and the time side of C14 jobs)
 #include "../engine/harness.h"
 
 #include "quill/sinks/RotatingFileSink.h"
@@ -165,6 +167,22 @@ int64_t civil_next_daily(int64_t s0, int hh, int mm, bool gmt, bool& uncertain)
     if (best) return best;
   }
   uncertain = true;
+  return s0 + 86400;
+}
+
+// what libc makes of "HH:MM:00 on the civil day of s0, else on the next civil day" with tm_isdst = -1 (the reading of
+// an ambiguous or non-existent wall-clock time is implementation-defined; only consulted on such days)
+int64_t libc_next_daily(int64_t s0, int hh, int mm)
+{
+  tm base = civil(s0, false);
+  for (int k = 0; k <= 2; ++k)
+  {
+    tm x{};
+    x.tm_year = base.tm_year; x.tm_mon = base.tm_mon; x.tm_mday = base.tm_mday + k;
+    x.tm_hour = hh; x.tm_min = mm; x.tm_sec = 0; x.tm_isdst = -1;
+    time_t p = mktime(&x);
+    if (p != static_cast<time_t>(-1) && p > s0) return p;
+  }
   return s0 + 86400;
 }
 
@@ -339,7 +357,7 @@ struct Run
 {
   Cfg cfg;
   Report& r;
-  bool assert_tier_a{false}; // C15: assert the civil schedule (tier A) instead of the drift-tolerant one (tier B)
+  bool assert_tier_a{false}; // C15: assert the civil schedule (tier A); tier B (any schedule on the grid) only for DST-ambiguous days
 
   std::string dir;       // scratch directory (absolute, canonical)
   std::string base_path; // dir + "/base.log"
@@ -530,6 +548,9 @@ struct Run
     {
       civil_first = civil_next_hour(s0, cfg.gmt);
       fixed_first = (L / 3600 + 1) * 3600 - off;
+      // a UTC-offset change by a fraction of an hour (Australia/Lord_Howe) right at the next top of the hour: "the next
+      // full hour" has two readings
+      if (civil_first != fixed_first) unc = true;
     }
     else
     {
@@ -547,6 +568,11 @@ struct Run
       b_next.clear();
       b_next.push_back(fixed_first * NS);
       if (civil_first != fixed_first) b_next.push_back(civil_first * NS);
+      if (cfg.freq == kDaily && !cfg.gmt)
+      {
+        int64_t const libc_first = libc_next_daily(s0, cfg.hh, cfg.mm);
+        if (libc_first != fixed_first && libc_first != civil_first) b_next.push_back(libc_first * NS);
+      }
     }
   }
 
@@ -554,6 +580,9 @@ struct Run
   {
     if (cfg.freq == kDaily) return civil_next_daily(ts / NS, cfg.hh, cfg.mm, cfg.gmt, a_uncertain) * NS;
     int64_t I = cfg.period_ns();
+    // hourly in local time: once the zone's offset has changed by a fraction of an hour since the schedule started, "every
+    // k hours" on the grid of the first point and the civil full hours differ; the property does not say which is meant
+    if (cfg.freq == kHourly && !cfg.gmt && (gmtoff_at(ts / NS) - gmtoff_at(a_p0 / NS - 1)) % 3600 != 0) a_uncertain = true;
     return a_p0 + ((ts - a_p0) / I + 1) * I;
   }
 
@@ -741,7 +770,7 @@ struct Run
     else
     {
       int64_t const period = cfg.period_ns();
-      // tier B: drift-tolerant candidates
+      // tier B: every schedule on the configured grid (several candidates on days on which the clocks change)
       bool b_due_any = false;
       if (b_alive)
       {
@@ -760,8 +789,22 @@ struct Run
             continue;
           }
           if (due) b_due_any = true;
-          int64_t const v = due ? ts + period : nx;
-          if (std::find(nb.begin(), nb.end(), v) == nb.end()) nb.push_back(v);
+          // the next point stays on the schedule: the grid of the previous point (whole periods), and for the daily
+          // time of day also what the civil calendar / libc make of it on days on which the clocks change
+          std::vector<int64_t> cand;
+          if (!due) cand.push_back(nx);
+          else
+          {
+            cand.push_back(nx + ((ts - nx) / period + 1) * period);
+            if (cfg.freq == kDaily && !cfg.gmt)
+            {
+              bool unc = false;
+              cand.push_back(civil_next_daily(ts / NS, cfg.hh, cfg.mm, false, unc) * NS);
+              cand.push_back(libc_next_daily(ts / NS, cfg.hh, cfg.mm) * NS);
+            }
+          }
+          for (int64_t v : cand)
+            if (std::find(nb.begin(), nb.end(), v) == nb.end()) nb.push_back(v);
         }
         if (nb.empty()) { b_alive = false; b_why = why; }
         b_next = nb;
@@ -1330,7 +1373,7 @@ void finish_case(Run& run, Report& r, Clock const& clk, std::string const& ops, 
   else
   {
     r.nontrivial = run.time_rotations >= 1 && (run.gap_gt_period || run.on_point || run.size_rot_with_time);
-    // two tiers: a case that the drift-tolerant tier explains and the civil schedule does not is finding F8
+    // two tiers: a case that only the grid tier explains (a day on which the clocks change, or the old drift finding F8 when its class is excluded)
     bool const a_pass = run.a_alive || run.a_deferred;
     if (!r.failed && run.b_alive && !a_pass)
     {
@@ -1398,7 +1441,7 @@ static void run_case_impl(Choices& c, Report& r)
   set_tz(cfg.zone);
 
   Run run(cfg, r);
-  // C14 jobs that combine the size limit with a time rotation judge the time side with the drift-tolerant tier only: the
+  // C14 jobs that combine the size limit with a time rotation judge the time side with the grid tier (B) only: the
   // configured-schedule tier is C15's business (and has a known finding there)
   run.assert_tier_a = (cfg.freq != kNone) && !g_excl_f8 && g_prop == 15;
   Clock clk;
@@ -1526,7 +1569,7 @@ static void run_case_impl(Choices& c, Report& r)
     else
     {
       int64_t const P = cfg.period_ns();
-      int64_t const pb = run.b_next.empty() ? clk.now : run.b_next.front(); // what a drifting schedule waits for
+      int64_t const pb = run.b_next.empty() ? clk.now : run.b_next.front(); // the first grid candidate
       int64_t const pa = run.a_next;                                        // the configured civil schedule
       switch (c.weighted({4, 2, 1, 2, 4, 2, 2, 2, 3, 2, 3, 2, 3, 3, 1}))
       {
@@ -1682,9 +1725,8 @@ bool probe_known_class(std::string const& cls, std::string& what)
     ok = ok && run.write(100, d1 + 24 * H + 9 * H); // day 2 09:00 -> must rotate (08:00 passed), does not
     ok = ok && run.write(100, d1 + 24 * H + 12 * H);
     ok = ok && run.stop();
-    bool const b_alive = run.b_alive;
     run.teardown();
-    if (r.failed && b_alive)
+    if (r.failed)
     {
       what = "daily 08:00 GMT: after a rotation triggered late (11:00) the next point is 11:00 of the next day, the 08:00 point is ignored: " + r.message;
       return true;
